@@ -190,3 +190,16 @@ CLAIMED["C15"] = dict(
         "for ALL texts is validated, not proved (it needs the literal-matching lemma on the generated pattern). Two defects repaired in /repo: regex() handed out the "
         "cached dictionary itself; dict2const kept the caller's mapping."),
   design="§6 C15")
+
+CLAIMED["C16"] = dict(
+  technique="Lean 4 proof: Serial arithmetic for every object and operand by composing the operator definitions with from_value(n).value = n (C09's unbounded parse theorem); kernel-evaluated Datetime/Version/Naming instances",
+  text=("Theorems, for EVERY Serial object a (however spelled) of value v and every int n / Serial b of value w, unbounded: C16_serial_add_int (a+n, n+a), "
+        "C16_serial_sub_int, C16_serial_add_obj, C16_serial_sub_obj - when the value-level result is a natural number the operator yields an object of exactly that value; "
+        "C16_serial_negative_add / _sub / _sub_obj - when it is negative the operator raises TypeError (FormatterValueError inside from_value becomes NotImplemented); "
+        "C16_serial_rsub - n - Serial(a) is the plain number n - v. C16_instances - kernel-evaluated on operands parsed from text: Datetime +/- timedelta across day, month, "
+        "year and leap-day carries (1900 vs 2000), overflow past 9999, Datetime - Datetime in microseconds, Version + triple, Naming + Naming. Datetime/Version/Naming for all "
+        "operands, group adjust over every subset of members, the corpus of wrong operand types and 'no operand is modified' (value/string/hash snapshots) are decided by the "
+        "sweep against Python's own int/datetime/list arithmetic and by the correspondence (arith.* ops on spelled operands)."),
+  note=("Trusted: as C09; Arith.lean as the model of the dunder methods (NotImplemented protocol collapsed to TypeError); Cal.toOrdinal/ofOrdinal as the model of "
+        "datetime arithmetic (validated against datetime). Partial: only Serial is proved for all operands; immutability holds in the model by construction and is observed on the real objects."),
+  design="§6 C16")
